@@ -275,7 +275,14 @@ def _run_dens(case, ctx):
         reach = reach or bool(np.any(W[~np.eye(nel, dtype=bool)] > 0))
         sig = pym.Signal("x", np.zeros(nel))
         m = pym.DensityFilter(sig, domain=dom, radius=r)
-        for fname, x in _fields(rng, nel):
+        for ifield, (fname, x) in enumerate(_fields(rng, nel)):
+            if ifield == 1 and nel >= 2:
+                # another filter of the same mesh and radius with the `nonpadding` option comes to life (and is used) in the same
+                # process: the filter under test must not notice
+                sib = pym.DensityFilter(pym.Signal("xs", x.copy()), domain=dom, radius=r,
+                                        nonpadding=np.sort(rng.choice(nel, size=max(1, nel // 2), replace=False)))
+                sib.response()
+                ctx.count("dens_sibling_filters")
             sig.state = x.copy()
             m.response()
             y = m.sig_out[0].state
@@ -554,6 +561,30 @@ def _run_conv(case, ctx):
                     ctx.violate("filterconv/kernel-wider-than-domain/output-matches-neither-reading-of-mixed-rules",
                                 axes=mixed_wide, **w_)
         _invariants(ctx, "filterconv", fname, x, y, wit, averaging, volume)
+    # value overrides added *after* the filter has been used must act like overrides added before its first use
+    # (metamorphic: no model of the override semantics is needed)
+    if rng.random() < 0.35:
+        idx = (slice(0, max(1, n3[0] // 2)), slice(None), slice(None)) if rng.random() < 0.5 else \
+            (slice(None), slice(max(0, n3[1] - 1), None), slice(None))
+        val = float(rng.choice([0.0, 1.0, 0.25]))
+        m.override_values(idx, val)
+        sig2 = pym.Signal("x", np.zeros(nel))
+        if "radius" in kdesc:
+            m2 = pym.FilterConv(sig2, domain=dom, radius=kdesc["radius"], relative_units=rel, **kw)
+        else:
+            m2 = pym.FilterConv(sig2, domain=dom, weights=w.copy(), **kw)
+        m2.override_values(idx, val)
+        for fname, x in fields[:2]:
+            sig.state = x.copy()
+            sig2.state = x.copy()
+            m.response()
+            m2.response()
+            ya, yb = np.asarray(m.sig_out[0].state), np.asarray(m2.sig_out[0].state)
+            ctx.count("conv_override_histories")
+            if ya.shape != yb.shape or not np.allclose(ya, yb, rtol=1e-12, atol=1e-12 * max(1.0, float(np.max(np.abs(x))))):
+                ctx.violate("filterconv/value-override-added-after-first-use-acts-differently-from-one-added-before", field=fname,
+                            value=val, err=float(np.max(np.abs(ya - yb))) if ya.shape == yb.shape else None, **wit)
+                break
     kinds = "".join(_kind(mm)[0] for mm in modes[:2 * dim])
     return {"key": f"conv|{dim}D|{kd['k']}|{kinds}|{'wide' if wide else 'narrow'}",
             "nontrivial": nel >= 2 and any(q > 0 for q in p) and bool(np.count_nonzero(w3) > 1 or w3[tuple(p)] == 0),
